@@ -174,6 +174,8 @@ def cases(tier, rng):
             if tier == "quick" and inner[0] == "recipe" and len(st) == 3 and st[0] is None and inner[1][0] in ("plain", "redirect"):
                 continue
             yield inner[0], [inner, st]
+            if st and inner[0] != "big" and (tier != "quick" or len(st) == 1):
+                yield "second-request", [inner, st, 1]
 
 
 def search_cases(tier, rng, mism):
@@ -456,7 +458,7 @@ def bare(inner):
 
 
 def ENCODE(case):
-    inner, st = case
+    inner, st = case[:2]
     if inner[0] == "acts":
         return core.enc_line(["acts", inner[1], inner[2], [a_ if a_ is not None else [] for a_ in st]])
     w, a = bare(inner)
@@ -468,7 +470,8 @@ def ENCODE(case):
 
 
 def impl(case):
-    inner, st = case
+    inner, st = case[:2]
+    warm = len(case) > 2 and case[2]        # the same wrapped application objects have answered a request before
     cw, ca = Counter(), Counter()
     if inner[0] == "acts":
         bw, ba = Counter(), Counter()
@@ -477,8 +480,13 @@ def impl(case):
         if cw.n != 1 or ca.n != 1:
             out.append(["inner-invocations", cw.n, ca.n])
         return out
-    w = run_wsgi(wrap(inner_app(inner, "wsgi", cw), st, "wsgi"), inner)
-    a = run_asgi(wrap(inner_app(inner, "asgi", ca), st, "asgi"), inner)
+    wapp, aapp = wrap(inner_app(inner, "wsgi", cw), st, "wsgi"), wrap(inner_app(inner, "asgi", ca), st, "asgi")
+    if warm:        # a middleware object lives as long as the application: the second request must be answered like the first
+        run_wsgi(wapp, inner)
+        run_asgi(aapp, inner)
+        cw.n = ca.n = 0
+    w = run_wsgi(wapp, inner)
+    a = run_asgi(aapp, inner)
     bw, ba = bare(inner)
     if isinstance(ba[0], int):
         ba = [ba[0], ba[1], b"".join(d for _, d in ba[2])]
@@ -513,7 +521,7 @@ def fold_repeats(hs):
 def oracle(case, obs):
     if obs and obs[0] == "driver-exception":
         return ("driver-exception-" + str(obs[1]), str(obs))
-    inner, st = case
+    inner, st = case[:2]
     bw, ba = obs[2], obs[3]
     if len(obs) > 4:
         return ("inner-run-count", "the inner application ran %r times (wsgi, asgi)" % (obs[4][1:],))
@@ -570,7 +578,12 @@ def nontrivial(case, obs):
 
 
 def shrink(case):
-    inner, st = case
+    inner, st = case[:2]
+    if len(case) > 2 and case[2]:
+        yield [inner, st]
+        for i in range(len(st)):
+            yield [inner, st[:i] + st[i + 1:], 1]
+        return
     if inner[0] == "acts":
         for i in range(1, len(inner[1])):
             yield [["acts", inner[1][:i] + inner[1][i + 1:], inner[2], inner[3]], st]
